@@ -42,7 +42,7 @@ def vec_child_ok(arm_term, sym):
         parent, idx = path[-1]
         if parent[0] == "call" and parent[1] in ("Vec::len", "Vec::is_empty") and idx == 2:
             continue
-        if parent[0] == "call" and parent[1] in ("[T]::first", "[T]::last", "[T]::iter", "<Vec<Node> as iter::IntoIterator>::into_iter", "[T]::get") and idx == 2:
+        if parent[0] == "call" and parent[1] in ("[T]::first", "[T]::last", "iter", "[T]::get") and idx == 2:
             gp, gidx = path[-2] if len(path) > 1 else (None, None)
             names = []
             body = None
